@@ -32,7 +32,7 @@ def annot_pass(progs, tag):
         for p in progs:
             f.write(json.dumps(slim(p)) + "\n")
     res = tlc(SPEC_ANNOT, "SierraAnnotTrace", "SierraAnnotTrace.cfg", f"c15_{tag}", workers=1, timeout=3000,
-              env={"PROGS": pp}, java_opts=JAVA_OPTS_TRACE, heap="8g")
+              env={"PROGS": pp}, java_opts=JAVA_OPTS_TRACE, heap=__import__("lib").tlc_heap(8))
     if res.errors or res.violated:
         raise ToolError(f"SierraAnnotTrace {tag}: {res.errors[:2]} {res.violated} (see {res.out_path})")
     rep = None
